@@ -162,6 +162,34 @@ def check_dup_then(case):
     return v, 'ok' if not v else 'violated', True
 
 
+def check_dup_nested(case):
+    to_end, bs = case['to_end'], case['batch']
+    rows = [{'a': i, 'tags': ['t%d' % i], 'meta': {'k': [i]}} for i in range(case['n'])]
+    st = mkstate([('r0', [('a', 'integer'), ('tags', 'array'), ('meta', 'object')], rows), ('r1', SCHEMAS['d'], [{'d': 'x'}])])
+
+    def edit_nested(package):
+        yield package.pkg
+        for res in package:
+            if res.res.name == 'r0':
+                def it(res=res):
+                    for r in res:
+                        r['tags'].append('edited')
+                        r['meta']['k'].append(-1)
+                        yield r
+                yield it()
+            else:
+                yield res
+    label = 'duplicate(r0, duplicate_to_end=%s, batch_size=%d) of %d rows with array/object cells, then a step editing those cells of r0 in place' % (to_end, bs, case['n'])
+    kind, out = run_step(st, core.dataflows.duplicate('r0', duplicate_to_end=to_end, batch_size=bs), edit_nested)
+    if kind == 'exc':
+        return [('raises/duplicate-nested', '%s raises %s: %s' % (label, core.exc_sig(out), str(out)[:100]))], 'violated', True
+    ci = out.names().index('r0_copy')
+    v = []
+    if enc_rows(out.rows[ci]) != enc_rows(rows):
+        v.append(('copy-not-exact/duplicate-nested', '%s: the copy holds %r' % (label, out.rows[ci][:2])))
+    return v, 'ok' if not v else 'violated', True
+
+
 def check_delete(case):
     spec, sel = case['pkg'], case['sel']
     st = package(spec)
@@ -288,8 +316,12 @@ def cases(tier):
     return out
 
 
+def nested_cases():
+    return [{'proc': 'dup_nested', 'to_end': te, 'batch': bs, 'n': n} for te in (False, True) for bs in (1, 2, 1000) for n in (1, 3, 1001)]
+
+
 def run(run):
-    cs = cases(run.tier)
+    cs = cases(run.tier) + nested_cases()
     e2.run_cases(run, __name__, cs, batch=200)
     for res in run.map(big_case, big_cases(), chunksize=1, limit=900):
         run.absorb(res)
